@@ -32,16 +32,22 @@ Qed.
 
 Section P.
 Variable lexfuel : nat.
+(** the lift through the parser is generic: [L] is any property of the lexer that every pulled token preserves,
+    [bad] any set of lexer outcomes that cannot happen under [L] (and does not contain the step budget [PHang]) *)
+Variable L : lexer -> Prop.
+Variable bad : pulled -> Prop.
+Hypothesis Hnext : forall lx, L lx -> match next_token lexfuel lx with PTok _ lx' => L lx' | c => ~ bad c end.
+Hypothesis Hhang : ~ bad PHang.
 
-Definition P (p : parser) : Prop := lok (p_lexer p).
+Definition P (p : parser) : Prop := L (p_lexer p).
 
 Definition okr {A} (Q : A -> Prop) (r : presult A) : Prop :=
-  match r with ROk a => Q a | RErr _ q => True | RCrash c => c <> PDeadlock end.
+  match r with ROk a => Q a | RErr _ q => True | RCrash c => ~ bad c end.
 
 Lemma p_next_ok p : P p -> okr (fun tp => P (snd tp)) (p_next lexfuel p).
 Proof.
-  intro H. unfold p_next. pose proof (next_token_ok lexfuel (p_lexer p) H) as Hn.
-  destruct (next_token lexfuel (p_lexer p)); cbn [okr snd]; try discriminate; [exact Hn|contradiction].
+  intro H. unfold p_next. pose proof (Hnext (p_lexer p) H) as Hn.
+  destruct (next_token lexfuel (p_lexer p)); cbn [okr snd]; exact Hn.
 Qed.
 
 Lemma P_set_stack p s : P p -> P (set_stack p s). Proof. exact (fun H => H). Qed.
@@ -143,20 +149,31 @@ Qed.
 
 Lemma parse_loop_ok fuel : forall p, P p -> okr P (parse_loop lexfuel fuel p).
 Proof.
-  induction fuel as [|f IH]; intros p H; cbn [parse_loop]; [discriminate|].
+  induction fuel as [|f IH]; intros p H; cbn [parse_loop]; [exact Hhang|].
   pose proof (parse_step_ok (S f) p H) as Hs. destruct (parse_step lexfuel (S f) p) as [p1|e q|c]; cbn [okr] in *; [|exact I|exact Hs].
   destruct (toktype_eqb _ TEOF); [exact Hs|apply IH; exact Hs].
 Qed.
 End P.
 
+(** the whole parse, for any such [L] and [bad] *)
+Theorem parse_never_bad (L : lexer -> Prop) (bad : pulled -> Prop) :
+  (forall fuel lx, L lx -> match next_token fuel lx with PTok _ lx' => L lx' | c => ~ bad c end) -> ~ bad PHang ->
+  forall input, L (new_lexer input) -> forall c, parse_bytes input = Crashed c -> ~ bad c.
+Proof.
+  intros Hnext Hhang input H0 c. unfold parse_bytes. cbv zeta. cbn [p_lexer].
+  pose proof (Hnext (lex_fuel input) (new_lexer input) H0) as Hn.
+  destruct (next_token (lex_fuel input) (new_lexer input)) as [t lx| | |]; try (intro K; injection K as <-; exact Hn).
+  match goal with |- context [parse_loop ?lf ?pf ?p1] =>
+    pose proof (parse_loop_ok lf L bad (Hnext lf) Hhang pf p1 Hn) as Hl; destruct (parse_loop lf pf p1) as [p2|e p2|c2] end;
+    cbn [okr] in Hl; try discriminate. intro K. injection K as <-. exact Hl.
+Qed.
+
 Theorem parse_never_deadlocks input : parse_bytes input <> Crashed PDeadlock.
 Proof.
-  unfold parse_bytes. cbv zeta. cbn [p_lexer].
-  assert (H0 : lok (new_lexer input)) by reflexivity.
-  pose proof (next_token_ok (lex_fuel input) (new_lexer input) H0) as Hn.
-  destruct (next_token (lex_fuel input) (new_lexer input)) as [t lx| | |]; try discriminate; [|contradiction].
-  match goal with |- context [parse_loop ?lf ?pf ?p1] => pose proof (parse_loop_ok lf pf p1 Hn) as Hl; destruct (parse_loop lf pf p1) as [p2|e p2|c] end;
-    cbn [okr] in Hl; try discriminate. intro K. injection K as ->. apply Hl. reflexivity.
+  intro K. refine (parse_never_bad lok (fun c => c = PDeadlock) _ _ input _ PDeadlock K eq_refl).
+  - intros fuel lx H. pose proof (next_token_ok fuel lx H) as Hn. destruct (next_token fuel lx); try discriminate; [exact Hn|contradiction].
+  - discriminate.
+  - reflexivity.
 Qed.
 
 Theorem compile_never_deadlocks input : compile_parse input <> ODeadlock.
